@@ -33,6 +33,7 @@ type World struct {
 	reach          map[*ssa.Function]bool
 	pm             *parserModel
 	callSites      map[*ssa.Function][]ssa.CallInstruction
+	fnFlowMemo     *fnFlowInfo
 	lexModel       *lexSSAModel
 	memo           map[string]interface{}
 	coreMdl        *coreModel
